@@ -181,153 +181,191 @@ func (e *Env) c04CloseConnection(typ string) {
 	}
 }
 
+// taskFeeder: the goroutine started in Process.Run's call tree whose body sends *Task values on a channel.
+func (e *Env) taskFeeder() (*ssa.Function, *core.XG) {
+	a := e.anchors()
+	g := e.XG(a.procRun)
+	if g == nil {
+		return nil, nil
+	}
+	for _, n := range g.Nodes {
+		if !n.IsGo {
+			continue
+		}
+		f := n.Call.StaticCallee()
+		if f == nil {
+			f = funcOf(n.Call.Value)
+		}
+		if f == nil || f == a.execute || f.Blocks == nil {
+			continue
+		}
+		gf := e.XG(f)
+		if gf == nil {
+			continue
+		}
+		for _, m := range gf.Nodes {
+			if s, ok := m.Instr.(*ssa.Send); ok && isPtrToNamed(s.X.Type(), "Task") {
+				return f, gf
+			}
+		}
+	}
+	return nil, nil
+}
+
 func (e *Env) c04CreateTasks() {
 	r := e.R
 	a := e.anchors()
-	p := e.P
-	ct := p.DeclaredMethod("scipipe", "Process", "createTasks")
 	ob3 := r.Ob("R3", "createTasks:one-task-per-iteration", "the task-creation goroutine sends exactly one NewTask result per loop iteration on the feed channel, built from this iteration's receive rounds")
-	var closure *ssa.Function
-	if ct != nil {
-		for _, b := range ct.Blocks {
-			for _, in := range b.Instrs {
-				if gi, ok := in.(*ssa.Go); ok {
-					if f := funcOf(gi.Call.Value); f != nil {
-						closure = f
-					}
-				}
-			}
-		}
-	}
+	closure, g := e.taskFeeder()
 	if closure == nil {
-		ob3.Unknown("-", "task-creation goroutine of (*Process).createTasks not found")
+		ob3.Unknown("-", "no goroutine feeding *Task values found in Process.Run's call tree")
 		return
 	}
-	g := e.XG(closure)
-	if g == nil {
-		return
-	}
-	// feed sends: sends whose value is a NewTask call
+	xs := e.xsym()
 	isFeed := func(n *core.Node) bool {
 		s, ok := n.Instr.(*ssa.Send)
-		if !ok || n.Ctx != g.Root {
-			return false
-		}
-		c, ok := s.X.(*ssa.Call)
-		return ok && c.Call.StaticCallee() == a.newTask
+		return ok && isPtrToNamed(s.X.Type(), "Task")
 	}
-	feeds := g.Select(isFeed)
-	if len(feeds) != 1 {
-		ob3.Fail(core.FuncName(closure), fmt.Sprintf("%d sends of a NewTask result on the feed channel (exactly 1 expected)", len(feeds)))
-	} else {
-		n := feeds[0]
-		l := core.InnermostLoop(n.Instr)
-		switch {
-		case l == nil:
-			ob3.Fail(g.Where(n), "the feed send is not inside the task-creation loop")
-		case !core.OncePerIteration(l, n.Instr):
-			ob3.Fail(g.Where(n), "the feed send is not executed exactly once per iteration of the task-creation loop")
-		default:
-			call := n.Instr.(*ssa.Send).X.(*ssa.Call)
-			sy := e.symbolizer()
-			inIPs := sy.InFunc(closure, call.Call.Args[4]).String()
-			params := sy.InFunc(closure, call.Call.Args[7]).String()
-			if !strings.Contains(inIPs, "receiveOnInPorts") || !strings.Contains(params, "receiveOnInParamPorts") {
-				ob3.Fail(g.Where(n), "the task is not built from the receive rounds: inIPs="+inIPs+" params="+params)
-			} else {
-				ob3.OK(g.Where(n), "one send per iteration; inIPs ← receiveOnInPorts, params ← receiveOnInParamPorts")
-			}
-		}
+	// the receive rounds: functions containing a comma-ok receive on the channel of every element of the port maps
+	type round struct {
+		n     *core.Node
+		ports string
 	}
-	// receive helpers
-	for _, h := range []struct{ name, ports string }{{"receiveOnInPorts", "InPorts"}, {"receiveOnInParamPorts", "InParamPorts"}} {
-		ob := r.Ob("R3", h.name+":one-per-port", "each receive round takes exactly one element from the channel of every port of the process")
-		fn := p.DeclaredMethod("scipipe", "BaseProcess", h.name)
-		if fn == nil {
-			ob.Unknown("-", "helper not found")
-			continue
-		}
-		gh := e.XG(fn)
-		if gh == nil {
-			continue
-		}
-		isRecv := func(n *core.Node) bool {
-			u, ok := n.Instr.(*ssa.UnOp)
-			return ok && u.Op == token.ARROW && n.Ctx == gh.Root
-		}
-		recvs := gh.Select(isRecv)
-		if len(recvs) != 1 {
-			ob.Fail(core.FuncName(fn), fmt.Sprintf("%d channel receives in the helper (exactly 1, inside the loop over the ports, expected)", len(recvs)))
-			continue
-		}
-		n := recvs[0]
-		chs := e.symbolizer().InCtx(n.Ctx, n.Instr.(*ssa.UnOp).X).String()
-		if !strings.Contains(chs, "val∈") || !strings.Contains(chs, h.ports) {
-			ob.Fail(gh.Where(n), "the receive is not on the channel of an element of "+h.ports+"(): "+chs)
-			continue
-		}
-		if e.forAllOutputs(ob, gh, n, func(m *core.Node) bool { return m == n }, core.Scenario{}, "receive on every port") {
-			ob.OK(gh.Where(n), "one receive per port, complete range: "+chs)
-		}
-	}
-	// ---- R4 closed port ends task creation
-	ob4 := r.Ob("R4", "createTasks:closed⇒stop", "when a port is found closed (comma-ok false) no further task is created")
-	n4 := 0
+	var rounds []round
 	for _, n := range g.Nodes {
 		u, ok := n.Instr.(*ssa.UnOp)
 		if !ok || u.Op != token.ARROW || !u.CommaOk {
 			continue
 		}
-		// only receives on the channel of one of the process's own in-ports / parameter in-ports
 		chs := e.symbolizer().InCtx(n.Ctx, u.X).String()
-		if !strings.HasPrefix(chs, "val∈") || !(strings.Contains(chs, "InPorts(") || strings.Contains(chs, "InParamPorts(") || strings.Contains(chs, ".inPorts") || strings.Contains(chs, ".inParamPorts")) {
+		if !strings.HasPrefix(chs, "val∈") {
 			continue
 		}
-		n4++
-		res := g.Run(core.Scenario{Start: n, Result: core.TupleAV(core.Top, core.BoolAV(false))})
-		if w := res.Reaches(isFeed); w != nil {
-			ob4.Fail(g.Where(n), "after a port was found closed a task is still sent on the feed channel (an incomplete input set would be executed, or the loop spins)")
-		} else if res.NormalReturn() == nil {
-			ob4.Fail(g.Where(n), "after a port was found closed the task-creation goroutine never terminates")
-		} else {
-			ob4.OK(g.Where(n), "closed ⇒ goroutine ends without a further task")
+		switch {
+		case strings.Contains(chs, "InParamPorts(") || strings.Contains(chs, ".inParamPorts"):
+			rounds = append(rounds, round{n, "InParamPorts"})
+		case strings.Contains(chs, "InPorts(") || strings.Contains(chs, ".inPorts"):
+			rounds = append(rounds, round{n, "InPorts"})
 		}
 	}
-	if n4 == 0 {
-		ob4.Unknown(core.FuncName(closure), "no comma-ok receive in the task-creation goroutine's call tree")
+	feeds := g.Select(isFeed)
+	if len(feeds) != 1 {
+		ob3.Fail(core.FuncName(closure), fmt.Sprintf("%d sends of a task on the feed channel (exactly 1 expected)", len(feeds)))
+	} else {
+		n := feeds[0]
+		las := g.EnclLoops(n)
+		okOnce := len(las) > 0
+		if okOnce {
+			// the send is executed on every iteration of the task loop that goes on: its call chain node dominates the latches
+			okOnce = core.OncePerIteration(las[len(las)-1].L, las[len(las)-1].At.Instr)
+		}
+		val := xs.InCtx(n.Ctx, n.Instr.(*ssa.Send).X)
+		var nt *core.Sym
+		val.Walk(func(z *core.Sym) bool {
+			if nt == nil && z.Op == "call" && z.Callee == a.newTask {
+				nt = z
+			}
+			return nt == nil
+		})
+		switch {
+		case !okOnce:
+			ob3.Fail(g.Where(n), "the feed send is not executed exactly once per iteration of the task-creation loop")
+		case nt == nil || len(nt.Args) < 8:
+			ob3.Fail(g.Where(n), "the value sent is not a NewTask(...) result: "+trunc(val.String(), 120))
+		default:
+			inIPs, params := nt.Args[4].String(), nt.Args[7].String()
+			// each must be rooted in the function that performs the corresponding receive round
+			rootedIn := func(z *core.Sym, fn *ssa.Function) bool {
+				hit := false
+				z.Walk(func(w *core.Sym) bool {
+					if w.Fn == fn || (w.Op == "call" && w.Callee == fn) {
+						hit = true
+					}
+					return !hit
+				})
+				return hit
+			}
+			okIn, okPar := false, false
+			for _, rd := range rounds {
+				if rd.ports == "InPorts" && (rd.n.Ctx == g.Root || rootedIn(nt.Args[4], rd.n.Ctx.Fn)) {
+					okIn = true
+				}
+				if rd.ports == "InParamPorts" && (rd.n.Ctx == g.Root || rootedIn(nt.Args[7], rd.n.Ctx.Fn)) {
+					okPar = true
+				}
+			}
+			if !okIn || !okPar {
+				ob3.Fail(g.Where(n), "the task is not built from this iteration's receive rounds: inIPs="+trunc(inIPs, 100)+" params="+trunc(params, 100))
+			} else {
+				ob3.OK(g.Where(n), "one send per iteration; in-IPs and params come from the receive rounds")
+			}
+		}
+	}
+	// receive rounds: one receive per port, complete range
+	for _, kind := range []string{"InPorts", "InParamPorts"} {
+		key := "receiveOnInPorts"
+		if kind == "InParamPorts" {
+			key = "receiveOnInParamPorts"
+		}
+		ob := r.Ob("R3", key+":one-per-port", "each receive round takes exactly one element from the channel of every port of the process")
+		cnt := 0
+		for _, rd := range rounds {
+			if rd.ports != kind {
+				continue
+			}
+			cnt++
+			chs := e.symbolizer().InCtx(rd.n.Ctx, rd.n.Instr.(*ssa.UnOp).X).String()
+			if e.forAllOutputs(ob, g, rd.n, func(m *core.Node) bool { return m == rd.n }, core.Scenario{}, "receive on every port") {
+				ob.OK(g.Where(rd.n), "one receive per port, complete range: "+chs)
+			}
+		}
+		if cnt != 1 {
+			ob.Fail(core.FuncName(closure), fmt.Sprintf("%d receives on the channels of %s() per round (exactly 1, inside the loop over the ports, expected)", cnt, kind))
+		}
+	}
+	// ---- R4 closed port ends task creation
+	ob4 := r.Ob("R4", "createTasks:closed⇒stop", "when a port is found closed (comma-ok false) no further task is created")
+	for _, rd := range rounds {
+		res := g.Run(core.Scenario{Start: rd.n, Result: core.TupleAV(core.Top, core.BoolAV(false))})
+		if w := res.Reaches(isFeed); w != nil {
+			ob4.Fail(g.Where(rd.n), "after a port was found closed a task is still sent on the feed channel (an incomplete input set would be executed, or the loop spins)")
+		} else if res.NormalReturn() == nil {
+			ob4.Fail(g.Where(rd.n), "after a port was found closed the task-creation goroutine never terminates")
+		} else {
+			ob4.OK(g.Where(rd.n), "closed ⇒ goroutine ends without a further task")
+		}
+	}
+	if len(rounds) == 0 {
+		ob4.Unknown(core.FuncName(closure), "no comma-ok receive on a port channel in the task-creation goroutine's call tree")
 	}
 	// no-ports case: exactly one task
 	ob4b := r.Ob("R4", "createTasks:no-ports⇒once", "a process without in-ports and parameter ports creates exactly one task")
-	lenOf := func(n *core.Node) string {
-		if !n.IsBuiltin("len") || n.Ctx != g.Root {
-			return ""
+	isPortLen := func(m *core.Node) bool {
+		if !m.IsBuiltin("len") {
+			return false
 		}
-		return e.argSym(n, 0).String()
+		s := e.symbolizer().InCtx(m.Ctx, m.Call.Args[0]).String()
+		return strings.Contains(s, "inPorts") || strings.Contains(s, "inParamPorts") || strings.Contains(s, "InPorts(") || strings.Contains(s, "InParamPorts(")
 	}
 	zero := func(m *core.Node) (core.AV, bool) {
-		if lenOf(m) != "" {
+		if isPortLen(m) {
 			return core.IntAV(0), true
 		}
 		return core.Top, false
 	}
-	res := g.Run(core.Scenario{Start: g.Entry, CallResult: zero})
+	res := g.Run(core.Scenario{Start: g.Entry, AtEntry: true, CallResult: zero})
 	switch {
 	case res.Reaches(isFeed) == nil:
 		ob4b.Fail(core.FuncName(closure), "with no ports at all no task is created")
 	case res.NormalReturn() == nil:
 		ob4b.Fail(core.FuncName(closure), "with no ports at all the task-creation loop never ends")
 	default:
-		// after the first feed send, a second one must be unreachable
-		var first *core.Node
-		for _, n := range feeds {
-			first = n
-		}
-		if first != nil {
+		for _, first := range feeds {
 			res2 := g.Run(core.Scenario{Start: first, CallResult: zero})
 			if res2.Reaches(isFeed) != nil {
 				ob4b.Fail(g.Where(first), "with no ports at all a second task can be created")
 			} else {
-				ob4b.OK(g.Where(first), "len(inPorts)=len(inParamPorts)=0 ⇒ one task, then the goroutine ends")
+				ob4b.OK(g.Where(first), "no ports ⇒ one task, then the goroutine ends")
 			}
 		}
 	}
@@ -344,147 +382,177 @@ func funcOf(v ssa.Value) *ssa.Function {
 	return nil
 }
 
-// spawnRules: runProcs starts every process once (C04.R5/R6, shared by C05 and C16).
+// runRoot: the expanded CFG of Workflow.Run (it contains the whole start-up: rewiring, readiness, spawning).
+func (e *Env) runRoot() *core.XG {
+	run := e.P.DeclaredMethod("scipipe", "Workflow", "Run")
+	if run == nil {
+		return nil
+	}
+	return e.XG(run)
+}
+
+// chainGuards lists, with polarity, the branch conditions that control whether node n is reached, from n up
+// to (and inside) the loop la along the calling-context chain; loop-continuation tests are left out.
+func (e *Env) chainGuards(g *core.XG, n *core.Node, la core.LoopAt) []string {
+	var out []string
+	xs := e.xsym()
+	for x := n; x != nil; x = x.Ctx.CallNode {
+		b := x.Instr.Block()
+		for d := b; d != nil; d = d.Idom() {
+			id := d.Idom()
+			if id == nil {
+				break
+			}
+			if x == la.At && !la.L.Blocks[id] {
+				break
+			}
+			iff, ok := id.Instrs[len(id.Instrs)-1].(*ssa.If)
+			if !ok {
+				continue
+			}
+			var pol string
+			switch {
+			case id.Succs[0].Dominates(b) && len(id.Succs[0].Preds) == 1:
+				pol = ""
+			case id.Succs[1].Dominates(b) && len(id.Succs[1].Preds) == 1:
+				pol = "!"
+			default:
+				continue
+			}
+			c := xs.InCtx(x.Ctx, iff.Cond).String()
+			if strings.HasPrefix(c, "more∈") || strings.HasPrefix(c, "op<(op+(φ(-1") {
+				continue
+			}
+			out = append(out, pol+c)
+		}
+		if x == la.At || x.Ctx.Parent == nil {
+			break
+		}
+	}
+	return out
+}
+
+// spawnRules: every process of the run set is started exactly once (C04.R5/R6, shared by C05 and C16).
 func (e *Env) spawnRules(ruleSpawn, ruleDriver string) {
 	r := e.R
 	p := e.P
-	rp := p.DeclaredMethod("scipipe", "Workflow", "runProcs")
-	obGo := r.Ob(ruleSpawn, "runProcs:go-Run-all", "every process of the run set is started in a goroutine (the spawn loop ranges the whole map and is not left early)")
+	obGo := r.Ob(ruleSpawn, "runProcs:go-Run-all", "every process of the run set is started in a goroutine (the spawn loop ranges the whole set and is not left early)")
 	obDrv := r.Ob(ruleSpawn, "runProcs:driver.Run-once", "the driver's Run is invoked exactly once, synchronously, after the spawn loop")
-	obEx := r.Ob(ruleDriver, "runProcs:driver∉spawn", "the driver process is excluded from the spawned set on the very map the spawn loop ranges (skip-in-loop or delete-from-ranged-map)")
-	if rp == nil {
-		obGo.Unknown("-", "(*Workflow).runProcs not found")
-		return
-	}
-	wfT := p.Named("scipipe", "WorkflowProcess")
-	isRunInvoke := func(c *ssa.CallCommon) bool {
-		return c.IsInvoke() && c.Method.Name() == "Run" && wfT != nil && types.Identical(c.Value.Type(), wfT)
-	}
-	var goRuns []*ssa.Go
-	var syncRuns []*ssa.Call
-	for _, b := range rp.Blocks {
-		for _, in := range b.Instrs {
-			switch x := in.(type) {
-			case *ssa.Go:
-				if isRunInvoke(&x.Call) {
-					goRuns = append(goRuns, x)
-				}
-			case *ssa.Call:
-				if isRunInvoke(&x.Call) {
-					syncRuns = append(syncRuns, x)
-				}
-			}
+	obEx := r.Ob(ruleDriver, "runProcs:driver∉spawn", "the driver process is excluded from the spawned set on the very collection the spawn loop ranges (skip-in-loop or delete-from-ranged-map)")
+	for _, rootName := range []string{"Run", "RunToProcs"} {
+		root := p.DeclaredMethod("scipipe", "Workflow", rootName)
+		if root == nil {
+			obGo.Unknown("-", "(*Workflow)."+rootName+" not found")
+			continue
+		}
+		if g := e.XG(root); g != nil {
+			e.spawnRulesOn(g, "(*Workflow)."+rootName, obGo, obDrv, obEx)
 		}
 	}
-	sy := e.symbolizer()
+}
+
+func (e *Env) spawnRulesOn(g *core.XG, rootName string, obGo, obDrv, obEx *core.Obligation) {
+	p := e.P
+	wfT := p.Named("scipipe", "WorkflowProcess")
+	isRunInvoke := func(n *core.Node) bool {
+		return n.Call != nil && n.Call.IsInvoke() && n.Call.Method.Name() == "Run" && wfT != nil && types.Identical(n.Call.Value.Type(), wfT)
+	}
+	xs := e.xsym()
+	var goRuns, syncRuns []*core.Node
+	for _, n := range g.Nodes {
+		if !isRunInvoke(n) || n.Kind == core.KAfter {
+			continue
+		}
+		if n.IsGo {
+			goRuns = append(goRuns, n)
+		} else if _, isDefer := n.Instr.(*ssa.Defer); !isDefer {
+			syncRuns = append(syncRuns, n)
+		}
+	}
 	if len(goRuns) != 1 {
-		obGo.Fail(core.FuncName(rp), fmt.Sprintf("%d `go <process>.Run()` statements in runProcs (1 expected)", len(goRuns)))
+		obGo.Fail(rootName, fmt.Sprintf("%d `go <process>.Run()` statements in %s's call tree (1 expected)", len(goRuns), rootName))
 		return
 	}
 	gr := goRuns[0]
-	l := core.InnermostLoop(gr)
-	rv := sy.InFunc(rp, gr.Call.Value)
-	if l == nil || rv.Op != "rangeval" {
-		obGo.Fail(e.where(gr), "the spawned process is not the element of a range loop: "+rv.String())
+	recv := xs.InCtx(gr.Ctx, gr.Call.Value)
+	la, ok := e.loopOver(g, gr, "")
+	if !ok || !strings.HasPrefix(recv.String(), "val∈") {
+		obGo.Fail(g.Where(gr), "the spawned process is not the element of a range loop: "+recv.String())
 		return
 	}
-	ranged := rv.Args[0]
-	if ex := p.EarlyExits(l); len(ex) > 0 {
-		obGo.Fail(e.where(gr), "the spawn loop can be left before all processes are started: "+ex[0])
-	} else {
-		obGo.OK(e.where(gr), "go Run over every element of "+ranged.String())
-	}
-	// guards on the path from the loop body entry to the go: only a driver comparison is allowed
-	drvField := p.FieldVar("scipipe", "Workflow", "driver")
-	guardOK, usesSkip := true, false
-	for d := gr.Block(); d != nil && l.Blocks[d] && d != l.Header; d = d.Idom() {
-		id := d.Idom()
-		if id == nil || !l.Blocks[id] {
-			break
-		}
-		iff, ok := id.Instrs[len(id.Instrs)-1].(*ssa.If)
-		if !ok || id == l.Header {
-			continue
-		}
-		// id branches; d is on one side. Is the condition a comparison with the driver?
-		cs := sy.InFunc(rp, iff.Cond)
-		isDrvCmp := false
-		if bo, ok := iff.Cond.(*ssa.BinOp); ok && (bo.Op == token.EQL || bo.Op == token.NEQ) {
-			ls, rs := sy.InFunc(rp, bo.X).String(), sy.InFunc(rp, bo.Y).String()
-			mentionsDrv := func(s string) bool { return strings.Contains(s, "."+fieldName(drvField)) }
-			mentionsElem := func(s string) bool { return strings.Contains(s, "val∈") }
-			if (mentionsDrv(ls) && mentionsElem(rs)) || (mentionsDrv(rs) && mentionsElem(ls)) {
-				// the go must be on the "different from driver" side
-				neqSide := id.Succs[1]
-				if bo.Op == token.NEQ {
-					neqSide = id.Succs[0]
-				}
-				if neqSide.Dominates(gr.Block()) {
-					isDrvCmp, usesSkip = true, true
-				}
+	ranged := e.loopCollection(g, la)
+	okGo := true
+	for _, ed := range p.EarlyExitEdges(la.L) {
+		if tgt := g.FirstNodeOf(la.At.Ctx, ed.To); tgt != nil {
+			if g.Run(core.Scenario{Start: tgt, AtEntry: true}).NormalReturn() != nil {
+				okGo = false
+				obGo.Fail(g.Where(gr), "the spawn loop can be left before all processes are started")
 			}
 		}
-		if !isDrvCmp {
-			guardOK = false
-			obGo.Fail(e.where(iff), "the start of a process in the spawn loop depends on the condition "+cs.String()+": some processes of the run set may never be started")
-		}
 	}
-	_ = guardOK
+	drvField := p.FieldVar("scipipe", "Workflow", "driver")
+	dn := "." + fieldName(drvField)
+	usesSkip := false
+	for _, gd := range e.chainGuards(g, gr, la) {
+		body := strings.TrimPrefix(gd, "!")
+		neg := strings.HasPrefix(gd, "!")
+		isCmp := strings.Contains(body, dn) && strings.Contains(body, "val∈")
+		goOnDifferent := (neg && strings.HasPrefix(body, "op==")) || (!neg && strings.HasPrefix(body, "op!="))
+		if isCmp && goOnDifferent {
+			usesSkip = true
+			continue
+		}
+		okGo = false
+		obGo.Fail(g.Where(gr), "the start of a process in the spawn loop depends on the condition "+trunc(gd, 160)+": some processes of the run set may never be started")
+	}
+	if okGo {
+		obGo.OK(g.Where(gr), rootName+": go Run over every element of "+trunc(ranged, 60))
+	}
 	// the synchronous driver run
+	exits := nodeSet(g.LoopExitNodes(la))
+	must := g.Forward(func(n *core.Node) core.Transfer {
+		if exits[n] {
+			return core.Transfer{Gen: 1}
+		}
+		return core.Transfer{}
+	}, true)
 	nDrv := 0
 	for _, c := range syncRuns {
-		s := sy.InFunc(rp, c.Call.Value).String()
-		if strings.Contains(s, "."+fieldName(drvField)) {
-			nDrv++
-			inLoop := core.InnermostLoop(c) != nil
-			after := l.Header.Dominates(c.Block()) && !l.Blocks[c.Block()]
-			obDrv.Check(!inLoop && after, e.where(c), "driver.Run() once after the spawn loop", "the driver's Run is inside a loop or not after the spawn loop")
+		s := xs.InCtx(c.Ctx, c.Call.Value).String()
+		if !strings.Contains(s, dn) {
+			continue
 		}
+		nDrv++
+		inLoop := len(iterLoops(g, c)) > 0
+		obDrv.Check(!inLoop && (must[c]&1 != 0 || exits[c]), g.Where(c), "driver.Run() once after the spawn loop", "the driver's Run is inside a loop or not after the completed spawn loop")
 	}
 	if nDrv != 1 {
-		obDrv.Fail(core.FuncName(rp), fmt.Sprintf("%d synchronous calls of the driver's Run (exactly 1 expected)", nDrv))
+		obDrv.Fail(rootName, fmt.Sprintf("%d synchronous calls of the driver's Run (exactly 1 expected)", nDrv))
 	}
 	// exclusion of the driver
 	if usesSkip {
-		obEx.OK(e.where(gr), "skip-in-loop: the go is reached only when the element differs from the driver")
+		obEx.OK(g.Where(gr), "skip-in-loop: the go is reached only when the element differs from the driver")
 		return
 	}
-	// delete idiom: delete(<the ranged map>, key derived from driver) before the loop, in runProcs or a callee given the same map
-	rangedParam, _ := ranged.Val.(*ssa.Parameter)
 	found := false
-	var visit func(fn *ssa.Function, mapParam *ssa.Parameter, depth int)
-	visit = func(fn *ssa.Function, mapParam *ssa.Parameter, depth int) {
-		if depth > 3 || fn == nil || fn.Blocks == nil {
-			return
+	for _, n := range g.Nodes {
+		if !n.IsBuiltin("delete") {
+			continue
 		}
-		for _, b := range fn.Blocks {
-			for _, in := range b.Instrs {
-				c, ok := in.(*ssa.Call)
-				if !ok {
-					continue
-				}
-				if bi, ok := c.Call.Value.(*ssa.Builtin); ok && bi.Name() == "delete" {
-					if c.Call.Args[0] == ssa.Value(mapParam) && strings.Contains(sy.InFunc(fn, c.Call.Args[1]).String(), "."+fieldName(drvField)) {
-						found = true
-					}
-				}
-				if cal := c.Call.StaticCallee(); cal != nil && p.IsLib(cal) {
-					for i, arg := range c.Call.Args {
-						if arg == ssa.Value(mapParam) && i < len(cal.Params) {
-							visit(cal, cal.Params[i], depth+1)
-						}
-					}
-				}
+		m := xs.InCtx(n.Ctx, n.Call.Args[0]).String()
+		k := xs.InCtx(n.Ctx, n.Call.Args[1]).String()
+		if m == ranged && strings.Contains(k, dn) {
+			// before the loop
+			reach := g.ReachableFrom(n, nil)
+			if reach[gr] {
+				found = true
 			}
 		}
 	}
-	if rangedParam != nil {
-		visit(rp, rangedParam, 0)
-	}
 	if found {
-		obEx.OK(e.where(gr), "delete-from-ranged-map idiom")
+		obEx.OK(g.Where(gr), "delete-from-ranged-map idiom")
 	} else {
-		obEx.Fail(e.where(gr), "nothing keeps the driver out of the spawned set: the spawn loop ranges "+ranged.String()+" and neither skips the driver nor is it deleted from that same map (a delete on another map, e.g. wf.procs when RunTo passes a fresh map, does not count). The driver would run twice, competing for the same in-ports")
+		obEx.Fail(g.Where(gr), "nothing keeps the driver out of the spawned set: the spawn loop ranges "+ranged+" and neither skips the driver nor is it deleted from that same collection (a delete on another map, e.g. wf.procs when RunTo passes a fresh map, does not count). The driver would run twice, competing for the same in-ports")
 	}
 }
 
